@@ -250,6 +250,8 @@ def run(ctx: Ctx) -> None:
 
 G = "cartgraph/graph.py"
 MUTANTS = [
+    ("occupation-ignores-replay-default", NODE, "        # the default number of tries is the one the rerun decision uses\n        max_tries = self.params.get_numeric(\n            \"max_tries\", 2 if self.params.get(\"replay\") else 1\n        )", "        max_tries = self.params.get_numeric(\"max_tries\", 1)", "13"),
+    ("two-workers-by-default-under-replay", NODE, "            \"max_concurrent_tries\", self.params.get_numeric(\"max_tries\", 1)\n", "            \"max_concurrent_tries\", max_tries\n", "6o"),
     ("reentrancy-ignores-spent-tries", NODE, "            max_concurrent_tries = min(\n                max_concurrent_tries, max_tries - len(spent_tries)\n            )", "            pass", "6t"),
     ("reentrancy-counts-inflight-as-left", NODE, "spent_tries = [r for r in self.shared_results if r[\"status\"] != \"UNKNOWN\"]", "spent_tries = []", "6t"),
     ("await-in-test-and-set", G, "        if test_node.is_occupied(worker):\n            return\n        test_node.started_worker = worker\n\n        # add previous",
